@@ -2,9 +2,11 @@
 import Comet.Driver.Flat
 import Comet.Driver.Dist
 import Comet.Driver.Atomic
+import Comet.Driver.BM25
 namespace Comet.Driver
 
 def handlers : List Handler := [
+  BM25Stream.handler,
   AtomicStream.handler,
   FlatStream.handler,
   DistStream.handler
